@@ -1,4 +1,4 @@
 #!/bin/bash
 # developer command: re-record the obligation baseline and the proof ledger for every property (run on an idle machine after changing the generator or a contract)
 cd "$(dirname "$0")/.."
-for p in C01 C02 C03 C04 C05 C06 C07 C08 C09 C11 C12 C13 C14 C15 C16 C17; do ./check $p --rebaseline 2>&1 | grep -E "baseline|ledger|^OK|VIOLATION|CHECKER"; done
+for p in C01 C02 C03 C04 C05 C06 C07 C08 C09 C10 C11 C12 C13 C14 C15 C16 C17; do ./check $p --rebaseline 2>&1 | grep -E "baseline|ledger|^OK|VIOLATION|CHECKER"; done
